@@ -43,4 +43,244 @@ theorem firstSizeMismatch_some : ∀ (as bs : List Ty) (i k : Nat), firstSizeMis
 theorem upd_same {α} (f : Nat → α) (k : Nat) (v : α) : upd f k v k = v := by simp [upd]
 theorem upd_other {α} (f : Nat → α) (k x : Nat) (v : α) (h : x ≠ k) : upd f k v x = f x := by simp [upd, h]
 
+/-! ### every producer of `Model/Reject.lean` ends in one of the model's chain shapes -/
+
+/-- every rejection a computation can end in has one of the model's chain shapes -/
+def Good {α} (x : R α) : Prop := ∀ r, x = .error r → r.shape = true
+
+theorem good_pure {α} (a : α) : Good (pure a : R α) := by intro r h; cases h
+theorem good_ok {α} (a : α) : Good (.ok a : R α) := by intro r h; cases h
+theorem good_bind {α β} (x : R α) (f : α → R β) (hx : Good x) (hf : ∀ a, Good (f a)) : Good (x >>= f) := by
+  intro r h
+  cases x with
+  | error e => simp [bind, Except.bind] at h; subst h; exact hx _ rfl
+  | ok a => exact hf a r (by simpa [bind, Except.bind] using h)
+theorem good_rej {α} (c : Cls) (ch : List ErrT) (h : (Rej.mk c ch).shape = true) : Good (rej c ch : R α) := by
+  intro r hr; simp only [rej, Except.error.injEq] at hr; subst hr; exact h
+
+macro "good_leaf" : tactic => `(tactic| (intro r h; (try simp only [rStr, rReflect, rRuntime, rej, pure, Except.pure] at h); (repeat' (split at h)) <;> (first | (cases h; done) | (simp only [Except.error.injEq] at h; subst h; rfl) | (simp at h))))
+
+theorem good_sigOf (v : V) : Good (sigOf v) := by unfold sigOf; good_leaf
+theorem good_signatureEquals (a b : Sig) : Good (signatureEquals a b) := by unfold signatureEquals; good_leaf
+theorem good_checkTrampolineFunc (o : OriginV) : Good (checkTrampolineFunc o) := by unfold checkTrampolineFunc; good_leaf
+theorem good_addResult (vs : List V) (outs : List Ty) : Good (addResult vs outs) := by unfold addResult; good_leaf
+theorem good_newDefaultMatch (a : List V) (m : Bool) (s : Sig) : Good (newDefaultMatch a m s) := by unfold newDefaultMatch; good_leaf
+theorem good_lookupCheck (n : String) (f : Bool) : Good (lookupCheck n f) := by unfold lookupCheck; good_leaf
+theorem good_nonFuncCall (k : Kind) : Good (nonFuncCall k) := by unfold nonFuncCall; good_leaf
+theorem good_exportCall (f : ExportForm) (a b c : Bool) : Good (exportCall f a b c) := by unfold exportCall; good_leaf
+theorem good_ifaceMethod (v : IfaceVar) (n : String) (f : Bool) : Good (ifaceMethod v n f) := by unfold ifaceMethod; good_leaf
+theorem good_ifaceSignature (m cb : Sig) : Good (ifaceSignature m cb) := by unfold ifaceSignature newReturnsNotMatchError; good_leaf
+theorem good_applyIface (v : IfaceVar) (m : Sig) (cb : V) : Good (applyIface v m cb) := by
+  unfold applyIface
+  intro r h
+  (repeat' (split at h))
+  all_goals first
+    | exact good_ifaceSignature _ _ r h
+    | (simp only [rStr, rReflect, rRuntime, rej, Except.error.injEq] at h; subst h; rfl)
+
+theorem good_checkParams (s : Sig) (a r : Option (List V)) (m : Bool) : Good (checkParams s a r m) := by
+  unfold checkParams newReturnsNotMatchError
+  intro r h
+  simp only [bind, Except.bind, pure, Except.pure, rej] at h
+  (repeat' (split at h)) <;> first | (cases h; done) | (simp only [Except.error.injEq] at h; subst h; rfl) | (simp at h)
+
+theorem signatureEquals_chain (a b : Sig) (e : Rej) (h : signatureEquals a b = .error e) : e.chain = [.str] := by
+  unfold signatureEquals at h
+  simp only [rStr, rej, pure, Except.pure] at h
+  (repeat' (split at h)) <;> first | (cases h; done) | (simp only [Except.error.injEq] at h; subst h; rfl) | (simp at h)
+
+theorem patchValueChecks_error (a b : V) (e : Rej) (h : patchValueChecks a b = .error e) :
+    e.shape = true ∧ (isPatchCls e.cls = true ∨ e.chain.head? ≠ some .plain) := by
+  cases a with
+  | fn sa =>
+    cases b with
+    | fn sb =>
+      cases hs : signatureEquals sa sb with
+      | error e1 =>
+        simp [patchValueChecks, sigOf, hs, bind, Except.bind, pure, Except.pure] at h
+        subst h
+        exact ⟨good_signatureEquals _ _ _ hs, Or.inr (by rw [signatureEquals_chain _ _ _ hs]; simp)⟩
+      | ok u => simp [patchValueChecks, sigOf, hs, bind, Except.bind, pure, Except.pure] at h
+    | nil | val _ | expr =>
+      simp [patchValueChecks, sigOf, rReflect, rej, bind, Except.bind, pure, Except.pure] at h
+      subst h; exact ⟨rfl, Or.inr (by simp)⟩
+  | nil | val _ | expr =>
+    simp [patchValueChecks, sigOf, rReflect, rej, bind, Except.bind, pure, Except.pure] at h
+    subst h; exact ⟨rfl, Or.inr (by simp)⟩
+
+theorem shape_asPanicString (e : Rej) (h : e.shape = true) (hp : isPatchCls e.cls = true ∨ e.chain.head? ≠ some .plain) :
+    (asPanicString e).shape = true := by
+  obtain ⟨cls, chain⟩ := e
+  unfold asPanicString
+  split
+  · rename_i rest hc
+    simp only at hc
+    cases hp with
+    | inl hp => cases cls <;> simp [isPatchCls] at hp <;> rfl
+    | inr hp => simp [hc] at hp
+  · exact h
+
+theorem replaceFunc_shape (g g' : G) (t fs repl : Nat) (tr : Option Tramp) (e : Rej)
+    (h : replaceFunc g t fs repl tr = (g', .error e)) : e.shape = true ∧ isPatchCls e.cls = true := by
+  unfold replaceFunc at h
+  simp only at h
+  (repeat' (split at h)) <;> first
+    | (simp only [Prod.mk.injEq, rej, Except.error.injEq] at h; obtain ⟨_, rfl⟩ := h; exact ⟨rfl, rfl⟩)
+    | (simp [pure, Except.pure] at h)
+
+theorem applyByFunc_shape (g g' : G) (tg : Target) (cb : V) (o : OriginV) (repl : Nat) (e : Rej)
+    (h : applyByFunc g tg cb o repl = (g', .error e)) : e.shape = true := by
+  unfold applyByFunc at h
+  cases h1 : checkTrampolineFunc o with
+  | error e1 =>
+    simp only [h1, Prod.mk.injEq, Except.error.injEq] at h
+    obtain ⟨_, rfl⟩ := h
+    exact good_checkTrampolineFunc o _ h1
+  | ok tr =>
+    simp only [h1] at h
+    cases h2 : patchValueChecks (.fn tg.sig) cb with
+    | error e2 =>
+      simp only [h2, Prod.mk.injEq, Except.error.injEq] at h
+      obtain ⟨_, rfl⟩ := h
+      exact shape_asPanicString _ (patchValueChecks_error _ _ _ h2).1 (patchValueChecks_error _ _ _ h2).2
+    | ok u =>
+      simp only [h2] at h
+      cases h3 : replaceFunc g tg.id tg.fsize repl tr with
+      | mk g1 r =>
+        cases r with
+        | error e3 =>
+          simp only [h3, Prod.mk.injEq, Except.error.injEq] at h
+          obtain ⟨_, rfl⟩ := h
+          have := replaceFunc_shape _ _ _ _ _ _ _ h3
+          exact shape_asPanicString _ this.1 (Or.inl this.2)
+        | ok u2 => simp [h3, pure, Except.pure] at h
+
+theorem good_createWhen (s : Sig) (a d : Option (List V)) (m : Bool) : Good (createWhen s a d m) := by
+  intro r h
+  unfold createWhen at h
+  simp only [bind, Except.bind, pure, Except.pure] at h
+  cases hcp : checkParams s a d m with
+  | error e => rw [hcp] at h; simp only [Except.error.injEq] at h; subst h; exact good_checkParams _ _ _ _ _ hcp
+  | ok u =>
+    rw [hcp] at h
+    cases d with
+    | none =>
+      cases a with
+      | none => simp at h
+      | some as =>
+        cases hn : newDefaultMatch as m s with
+        | error e => simp [hn] at h; subst h; exact good_newDefaultMatch _ _ _ _ hn
+        | ok u2 => simp [hn] at h
+    | some ds =>
+      cases hr : addResult ds s.outs with
+      | error e => simp [hr] at h; subst h; exact good_addResult _ _ _ hr
+      | ok u1 =>
+        cases a with
+        | none => simp [hr] at h
+        | some as =>
+          cases hn : newDefaultMatch as m s with
+          | error e => simp [hr, hn] at h; subst h; exact good_newDefaultMatch _ _ _ _ hn
+          | ok u2 => simp [hr, hn] at h
+
+theorem good_whenReturn (w : WhenSt) (s : Sig) (v : Option (List V)) : Good (whenReturn w s v) := by
+  unfold whenReturn
+  simp only
+  split
+  · exact good_bind _ _ (good_addResult _ _) (fun _ => good_pure _)
+  · split
+    · cases v with
+      | none => exact good_pure _
+      | some vs => exact good_bind _ _ (good_addResult _ _) (fun _ => good_pure _)
+    · exact good_bind _ _ (good_addResult _ _) (fun _ => good_pure _)
+
+theorem good_createWS (s : Sig) (a : Option (List V)) (hit : Bool) (d : Option (List V)) (m : Bool) : Good (createWS s a hit d m) := by
+  unfold createWS
+  refine good_bind _ _ (good_createWhen _ _ _ _) (fun _ => ?_)
+  cases a <;> exact good_pure _
+
+theorem good_wWhen (s : Sig) (m : Bool) (w : WS) (a : Option (List V)) (hit : Bool) : Good (wWhen s m w a hit) := by
+  unfold wWhen; exact good_bind _ _ (good_newDefaultMatch _ _ _) (fun _ => good_pure _)
+
+theorem good_wReturn (s : Sig) (w : WS) (v : Option (List V)) : Good (wReturn s w v) := by
+  unfold wReturn
+  split
+  · exact good_bind _ _ (good_addResult _ _) (fun _ => good_pure _)
+  · split
+    · cases v with
+      | none => exact good_pure _
+      | some vs => exact good_bind _ _ (good_addResult _ _) (fun _ => good_pure _)
+    · exact good_bind _ _ (good_addResult _ _) (fun _ => good_pure _)
+
+theorem good_wAndReturn (s : Sig) (w : WS) (v : Option (List V)) : Good (wAndReturn s w v) := by
+  unfold wAndReturn
+  split
+  · exact good_wReturn _ _ _
+  · exact good_bind _ _ (good_addResult _ _) (fun _ => good_pure _)
+
+theorem wReturns_shape (s : Sig) : ∀ (gs : List (List V)) (w w' : WS) (i : Nat) (e : Rej),
+    wReturns s w gs i = (w', .error e) → e.shape = true
+  | [], w, w', i, e, h => by simp [wReturns, pure, Except.pure] at h
+  | g :: rest, w, w', i, e, h => by
+    unfold wReturns at h
+    split at h
+    · rename_i e1 h1
+      simp only [Prod.mk.injEq, Except.error.injEq] at h
+      obtain ⟨_, rfl⟩ := h
+      split at h1
+      · exact good_wReturn _ _ _ _ h1
+      · exact good_wAndReturn _ _ _ _ h1
+    · exact wReturns_shape s rest _ _ _ _ h
+
+theorem good_wIn (s : Sig) (m : Bool) (w : WS) : ∀ (gs : List (List V × Bool)) (hit : Bool), Good (wIn s m w gs hit)
+  | [], hit => by unfold wIn; exact good_pure _
+  | (g, h) :: rest, hit => by
+    unfold wIn
+    split
+    · exact good_wIn s m w rest _
+    all_goals good_leaf
+
+theorem wMatches_shape (s : Sig) (m : Bool) : ∀ (ps : List (List V × Bool × List V)) (w w' : WS) (e : Rej),
+    wMatches s m w ps = (w', .error e) → e.shape = true
+  | [], w, w', e, h => by simp [wMatches, pure, Except.pure] at h
+  | (a, hit, r) :: rest, w, w', e, h => by
+    unfold wMatches at h
+    split at h
+    · rename_i e1 h1
+      simp only [Prod.mk.injEq, Except.error.injEq] at h
+      obtain ⟨_, rfl⟩ := h
+      exact good_newDefaultMatch _ _ _ _ h1
+    · split at h
+      · rename_i e1 h1
+        simp only [Prod.mk.injEq, Except.error.injEq] at h
+        obtain ⟨_, rfl⟩ := h
+        exact good_addResult _ _ _ h1
+      · exact wMatches_shape s m rest _ _ _ h
+
+theorem whenStep_shape (s : Sig) (m : Bool) (w w' : WS) (st : Step) (e : Rej)
+    (h : whenStep s m w st = (w', .error e)) : e.shape = true := by
+  cases st with
+  | ret v =>
+    simp only [whenStep] at h; split at h
+    · simp [pure, Except.pure] at h
+    · rename_i e1 h1; simp only [Prod.mk.injEq, Except.error.injEq] at h; obtain ⟨_, rfl⟩ := h; exact good_wReturn _ _ _ _ h1
+  | when_ a hit =>
+    simp only [whenStep] at h; split at h
+    · simp [pure, Except.pure] at h
+    · rename_i e1 h1; simp only [Prod.mk.injEq, Except.error.injEq] at h; obtain ⟨_, rfl⟩ := h; exact good_wWhen _ _ _ _ _ _ h1
+  | returns gs => exact wReturns_shape _ _ _ _ _ _ h
+  | andReturn v =>
+    simp only [whenStep] at h; split at h
+    · simp [pure, Except.pure] at h
+    · rename_i e1 h1; simp only [Prod.mk.injEq, Except.error.injEq] at h; obtain ⟨_, rfl⟩ := h; exact good_wAndReturn _ _ _ _ h1
+  | in_ gs =>
+    simp only [whenStep] at h; split at h
+    · simp [pure, Except.pure] at h
+    · rename_i e1 h1; simp only [Prod.mk.injEq, Except.error.injEq] at h; obtain ⟨_, rfl⟩ := h; exact good_wIn _ _ _ _ _ _ h1
+  | matchPairs ps => exact wMatches_shape _ _ _ _ _ _ h
+  | again => simp [whenStep, pure, Except.pure] at h
+  | lookup n f => simp [whenStep, pure, Except.pure] at h
+  | asFn f => simp [whenStep, pure, Except.pure] at h
+  | apply cb => simp [whenStep, pure, Except.pure] at h
+
+
 end C13L
